@@ -49,6 +49,8 @@ type rawPeer struct {
 	// hook, when set, sees every message the library writes (protocol id, message type, items) before the
 	// default treatment; it returns true if it has dealt with the message (life.go: scripted keep-alive replies)
 	hook func(id uint16, typ uint, v []rawItem) bool
+	// onSegment, when set, sees every segment read (it may set stalled: the loop then stops before the next read)
+	onSegment func(id uint16, n int)
 }
 
 func newRawPeer(conn net.Conn, responder bool, pid uint16, reqTypes []uint) *rawPeer {
@@ -76,6 +78,9 @@ func (p *rawPeer) readLoop() {
 		id, _, payload, err := hs.ReadSegment(p.conn)
 		if err != nil {
 			return
+		}
+		if p.onSegment != nil {
+			p.onSegment(id, len(payload))
 		}
 		buf := append(bufs[id], payload...)
 		for len(buf) > 0 {
@@ -258,6 +263,15 @@ func message(proto, name string, fx *fixtureBlock) []byte {
 		return enc(txsubmission.NewMsgDone())
 	case "txsubmission.RequestTxIdsBlocking":
 		return enc(txsubmission.NewMsgRequestTxIds(true, 0, 1))
+	case "txsubmission.RequestTxs":
+		var id [32]byte
+		copy(id[:], fill(32, 0x11))
+		return enc(txsubmission.NewMsgRequestTxs([]txsubmission.TxId{{EraId: 6, TxId: id}}))
+	case "localstatequery.AcquireVolatileTip":
+		return enc(localstatequery.NewMsgAcquireVolatileTip())
+	case "localstatequery.Query":
+		// [0, [2, [1]]]: block query / hard-fork query / current era
+		return enc(localstatequery.NewMsgQuery([]any{0, []any{2, []any{1}}}))
 	case "chainsync.Done":
 		return enc(chainsync.NewMsgDone())
 	case "chainsync.FindIntersect":
